@@ -137,6 +137,10 @@ class BitString(Type):
         return clean_value == clean_default
 
     def encode(self, data, encoded, values=None):
+        if self.has_named_bits:
+            # All trailing zero bits are removed before encoding.
+            data = clean_bit_string_value(data, True)
+
         number_of_bytes, number_of_rest_bits = divmod(data[1], 8)
         data = bytearray(data[0])
 
